@@ -112,9 +112,16 @@ class Walker(ExprMixin):
         else:
             self.block(self.node.body)
         ret = join_all(self.rets) if self.rets else STRUCT
-        if not isinstance(self.node, ast.Lambda) and any(isinstance(n, (ast.Yield, ast.YieldFrom)) for n in ast.walk(self.node)):
+        if not isinstance(self.node, ast.Lambda) and self.is_generator():
             ret = Val(kinds=FS({"generator"}), lit=True, elem=DYN)
         return self.effs, ret
+
+    def is_generator(self) -> bool:
+        c = self.eng._gen_cache
+        k = id(self.node)
+        if k not in c:
+            c[k] = any(isinstance(n, (ast.Yield, ast.YieldFrom)) for n in ast.walk(self.node))
+        return c[k]
 
     def block(self, stmts: Sequence[ast.stmt]) -> bool:
         """Returns True when control cannot fall through the end."""
